@@ -223,6 +223,8 @@ pub fn gen_managed(rng: &mut Rng, cfg: &GenCfg) -> MScenario {
     let n_actors = rng.range(1, cfg.max_actors);
     let mut close_budget = if cfg.close && rng.below(100) < 35 { 1 } else { 0 };
     let heavy_block = rng.below(100) < 30;
+    // C07: many resizes, many abandoned gets (permits that come back behind the pool's back)
+    let resize_heavy = cfg.profile == "C07" && rng.below(100) < 50;
     let mut actors = Vec::new();
     for _ in 0..n_actors {
         let n_ops = if reuse_mode { rng.range(cfg.max_ops / 2, cfg.max_ops + 2) } else { rng.range(1, cfg.max_ops) };
@@ -235,7 +237,7 @@ pub fn gen_managed(rng: &mut Rng, cfg: &GenCfg) -> MScenario {
                 if cfg.retain { 5 } else { 0 },          // retain
                 4,                                       // status
                 3,                                       // use
-                if cfg.resize { 8 } else { 0 },          // resize
+                if cfg.resize { if resize_heavy { 22 } else { 8 } } else { 0 }, // resize
                 if close_budget > 0 && k + 1 >= n_ops / 2 { 6 } else { 0 }, // close
                 if cfg.drop_handles { 2 } else { 0 },    // drop handle
             ];
@@ -264,7 +266,7 @@ pub fn gen_managed(rng: &mut Rng, cfg: &GenCfg) -> MScenario {
                         } else {
                             None
                         },
-                        cancellable: cfg.cancel && rng.below(100) < 35,
+                        cancellable: cfg.cancel && rng.below(100) < if resize_heavy { 65 } else { 35 },
                     }
                 }
                 1 => Op::Return { slot: rng.below(4) as u8 },
@@ -307,6 +309,8 @@ pub fn gen_managed(rng: &mut Rng, cfg: &GenCfg) -> MScenario {
     sc.knobs = gen_knobs(rng, sc.has_panic_outcome(), true);
     if !cfg.cancel {
         sc.knobs.p_cancel = 0;
+    } else if resize_heavy && sc.knobs.p_cancel < 100 {
+        sc.knobs.p_cancel = 200;
     }
     sc
 }
